@@ -14,32 +14,28 @@ def luafmt(src, width=2):
 
 def expected_depths(items):
     """Independent of picotool: nesting depth (blocks + brackets open, a closing token counts as closed) of each item,
-    computed from the token texts and the generator's knowledge of which `if`s are short-form."""
+    computed from the token texts and the generator's knowledge of which `if`s are short-form.
+    A short-`if` opens no level for its body; its own `else` (the one met while no block opened inside the short-if is
+    still open) opens one level that ends with the statement."""
     depths = []
-    stack = []            # entries: ('blk'|'br'|'sif-else', id)
-    short_if_ends = {}    # item index of the last token of a short-if -> number of short-ifs ending there
-    open_short = []
-    func_paren = []       # depth of paren nesting at which a `function` awaits its parameter list
+    stack = []            # entries: 'x' (block or bracket) | 'sif-else'
+    open_short = []       # per open short-if: {'base': stack height at its start, 'else': seen its own else}
     pending_func = 0
     paren_is_func = []
     for i, it in enumerate(items):
         t = it.text
         for k in it.opens:
             if k == 'StatIfShort':
-                open_short.append({'else': False})
+                open_short.append({'base': len(stack), 'else': False})
+        own_else = (t == b'else' and bool(open_short) and not open_short[-1]['else'] and len(stack) == open_short[-1]['base'])
         # closing tokens pop before
-        if t in (b'end', b'until', b')', b'}', b']', b'elseif') or (t == b'else'):
-            in_short = bool(open_short) and t == b'else' and not open_short[-1].get('long_if_depth')
-            if t == b'else' and in_short and open_short[-1]['else'] is False and not open_short[-1].get('inner_blocks'):
-                pass    # short-if else: stays at the short-if's own level
-            elif stack:
+        if t in (b'end', b'until', b')', b'}', b']', b'elseif', b'else') and not own_else:
+            if stack:
                 stack.pop()
         depths.append(len(stack))
         # opening tokens push after
         if t in (b'do', b'then', b'repeat', b'{', b'['):
             stack.append('x')
-            if open_short:
-                open_short[-1]['inner_blocks'] = open_short[-1].get('inner_blocks', 0) + (1 if t in (b'do', b'then', b'repeat') else 0)
         elif t == b'(':
             stack.append('x')
             paren_is_func.append(pending_func > 0)
@@ -48,7 +44,7 @@ def expected_depths(items):
         elif t == b'function':
             pending_func += 1
         elif t == b'else':
-            if open_short and open_short[-1]['else'] is False and not open_short[-1].get('inner_blocks'):
+            if own_else:
                 open_short[-1]['else'] = True
                 stack.append('sif-else')
             else:
@@ -56,17 +52,10 @@ def expected_depths(items):
         if t == b')':
             if paren_is_func and paren_is_func.pop():
                 stack.append('x')          # function body
-                if open_short:
-                    open_short[-1]['inner_blocks'] = open_short[-1].get('inner_blocks', 0) + 1
-        if t in (b'end', b'until') and open_short and open_short[-1].get('inner_blocks'):
-            open_short[-1]['inner_blocks'] -= 1
-        for _ in range(it.closes):
-            pass
         # a short-if ends with its last token: drop its else level
-        n_close_short = getattr(it, '_short_closes', 0)
-        for _ in range(n_close_short):
-            s = open_short.pop()
-            if s['else'] and stack and stack[-1] == 'sif-else':
+        for _ in range(getattr(it, '_short_closes', 0)):
+            sif = open_short.pop()
+            if sif['else'] and stack and stack[-1] == 'sif-else':
                 stack.pop()
     return depths
 
